@@ -125,6 +125,15 @@ class FloatVal(Model):
   def is_finite(self):
     return self.kind == 0
 
+  def py_isnan(self, ip):
+    return self.kind == 1
+
+  def py_isinf(self, ip):
+    return z3.Or(self.kind == 2, self.kind == 3)
+
+  def py_isfinite(self, ip):
+    return self.kind == 0
+
   def same(self, o):
     """bit-for-bit identity as far as the tagged encoding distinguishes (nan == nan here)"""
     o = FloatVal.of(o)
